@@ -68,6 +68,68 @@ def dlm_doc(rng, spelling, c, r):
     return text
 
 
+def cols_oracle(run, case, res, d, cols):
+    """binding oracle for documents with given expected columns (`cols[j][i]`: a float, or a str for a text column)"""
+    if res["res"][0] != "ok":
+        run.fail("read-error", case, res["res"])
+        return
+    las = res["las"]
+    rect(run, case, res)
+    c = len(cols)
+    if len(las.curves) != max(d, c):
+        run.fail("curve-count", case, {"got": len(las.curves), "want": max(d, c)})
+        return
+    for j in range(c):
+        got = las.curves[j].data.tolist()
+        want = cols[j]
+        same = len(got) == len(want) and all((isinstance(w, str) and str(g) == w) or (not isinstance(w, str) and not isinstance(g, str) and float(g) == w)
+                                             for g, w in zip(got, want))
+        if not same:
+            run.fail("cell-binding", case, {"curve": j, "got": [str(x) for x in got], "want": [str(x) for x in want]})
+            return
+    for j in range(c, d):
+        arr = las.curves[j].data
+        if arr.dtype.kind != "f" or len(arr) != len(cols[0]) or not all(x != x for x in arr.tolist()):
+            run.fail("missing-nan", case, {"curve": j, "got": [str(x) for x in arr.tolist()]})
+
+
+def special_docs(rng):
+    """documents whose binding depends on a detail of one engine or one splitter: (text, d, expected columns, read keywords, tag)"""
+    out = []
+    # COMMA-delimited, the last field (a free-text remark) empty on some lines: an empty field is a value
+    for r, empties in ((3, [1]), (4, [0, 2]), (2, [0, 1]), (3, [])):
+        rows = [[float(10 * i), float(100 + i), ("" if i in empties else "rem%d" % i)] for i in range(r)]
+        body = ["%s,%s,%s" % (repr(a), repr(b), t) for a, b, t in rows]
+        decl = dd.names(3)
+        text = dd.assemble(dd.header(dlm="COMMA", declared=decl), "~A", body, [])
+        DECL[text] = decl
+        for eng in ("numpy", "normal"):
+            out.append((text, 3, [[a for a, _, _ in rows], [b for _, b, _ in rows], [t for _, _, t in rows]], {"engine": eng}, "comma-empty-last"))
+    # a text value that contains '#' (sample tag, spreadsheet marker) is a value, not the start of a comment
+    for r in (2, 3):
+        for pos in (1, 2):
+            tags = ["#%d" % i if i % 2 == 0 else "A#B" for i in range(r)]
+            rows = [[float(i + 1), tags[i] if pos == 1 else float(5 * i), float(7 * i) if pos == 1 else tags[i]] for i in range(r)]
+            body = [" ".join(x if isinstance(x, str) else repr(x) for x in row) for row in rows]
+            decl = dd.names(3)
+            text = dd.assemble(dd.header(declared=decl), "~A", body, [])
+            DECL[text] = decl
+            out.append((text, 3, [[row[j] for row in rows] for j in range(3)], {"engine": "normal"}, "hash-in-text-cell"))
+    # the dtypes option: a dict / list for the DECLARED curves; whatever read succeeds keeps every data column
+    for d, c in ((2, 2), (1, 3), (2, 4), (3, 2)):
+        rows = [[float(1000 * i + j) for j in range(c)] for i in range(3)]
+        body = [" ".join(repr(x) for x in row) for row in rows]
+        decl = dd.names(d)
+        text = dd.assemble(dd.header(declared=decl), "~A", body, [])
+        DECL[text] = decl
+        cols = [[row[j] for row in rows] for j in range(c)]
+        for eng in ("numpy", "normal"):
+            out.append((text, d, cols, {"engine": eng, "dtypes": {decl[0]: float}}, "dtypes-dict"))
+            out.append((text, d, cols, {"engine": eng, "dtypes": [float] * d}, "dtypes-list"))
+            out.append((text, d, cols, {"engine": eng, "dtypes": [float] * c}, "dtypes-full-list"))
+    return out
+
+
 def oracle(run, case, res, d, c, r):
     textidx = bool(case.get("textidx"))
     if res["res"][0] != "ok":
@@ -176,6 +238,13 @@ def run(run):
                     if res["res"][0] == "ok" or spelling in ("COMMA", "TAB", "SPACE"):
                         oracle(run, case, res, c, c, r)
                     dd.compare(run, "dlm-spelling/" + eng, text, {"engine": eng}, res, False, case=case)
+    for text, d, cols, kw, tag in special_docs(run.rng):
+        case = {"text": text, "d": d, "cols": [[x if isinstance(x, str) else repr(x) for x in col] for col in cols],
+                "kw": {k: (v if k == "engine" else repr(v)) for k, v in kw.items()}, "special": tag}
+        run.case(case, nontrivial=True, tags=["special", tag])
+        res = dd.real_read(text, **kw)
+        if res["res"][0] == "ok" or not tag.startswith("dtypes"):       # (a dtypes list shorter than the columns raises: not a successful read)
+            cols_oracle(run, case, res, d, cols)
     # wrapped with more columns than one line holds, long rows
     for _ in range(run.budget(60, 1500)):
         d = run.rng.randint(1, 14)
@@ -213,6 +282,8 @@ def search(run, disagreements):
 class _Probe:
     def __init__(self):
         self.failures = []
+        import collections
+        self.dist = collections.Counter()
 
     def fail(self, clause, case, detail=None):
         self.failures.append((clause, detail))
@@ -220,6 +291,14 @@ class _Probe:
 
 def violates(c):
     p = _Probe()
+    if c.get("special"):
+        import random
+        for text, d, cols, kw, tag in special_docs(random.Random(0)):
+            if text == c["text"] and {k: (v if k == "engine" else repr(v)) for k, v in kw.items()} == c["kw"]:
+                res = dd.real_read(text, **kw)
+                if res["res"][0] == "ok" or not tag.startswith("dtypes"):
+                    cols_oracle(p, c, res, d, cols)
+        return p.failures
     if "d" in c:
         oracle(p, c, dd.real_read(c["text"], engine=c.get("engine", "numpy")), c["d"], c["c"], c["r"])
     else:
@@ -230,7 +309,7 @@ def violates(c):
 
 def shrink(run, f):
     c = dict(f["case"])
-    if "d" not in c or c.get("wrapped"):
+    if "d" not in c or c.get("wrapped") or c.get("special"):
         return f
     best = c
     for r in range(1, c["r"] + 1):
